@@ -11,7 +11,8 @@ Definition gate_case := (list pcourse * list nat * pnode * list (option nat) * g
 Definition set_eqb (x y : list (nat * nat) * list nat) : bool := list_eqb pair_eqb (fst x) (fst y) && list_eqb Nat.eqb (snd x) (snd y).
 (* bits: 1 model = implementation | 2 the node is well formed (node_wfb, and no shrink bound below the course's minimum: WfPres.Wf2) | 4 every child the IMPLEMENTATION's constraint sets lead to is
    well formed again (no course shrunk below its minimum size, nothing enforced cancelled: the invariant WfPres.Wf2 of all generated subproblems) | 8 the implementation reports a conflict
-   | 16 implementation panicked *)
+   | 16 implementation panicked | 32 C06 at the gate: if the implementation reports NO conflict, the assignment can be housed in the rooms
+   (Spec.housedb on the effective sizes, binary32) *)
 Definition check_gate (c : gate_case) : N :=
   let '(pcs, rooms, pn, a, ires) := c in
   let courses := map mk_course pcs in let params := mk_params pcs in
@@ -26,5 +27,8 @@ Definition check_gate (c : gate_case) : N :=
   let wf := node_wfb courses nd && forallb (fun cs : nat * nat => (fst cs <? length courses) && (c_min (crs courses (fst cs)) <=? snd cs)) (n_shrink nd) in
   let oks := fun nd' : node => forallb (fun cs : nat * nat => (fst cs <? length courses) && (c_min (crs courses (fst cs)) <=? snd cs)) (n_shrink nd') in
   let kids := match ires with GRes _ (Some isets) => forallb (fun s => node_wfb courses (child_of nd s) && oks (child_of nd s)) isets | _ => true end in
+  let housed := match ires with
+                | GRes true _ => Spec.housedb (map (eff_size courses es a) (seq 0 (length courses))) rooms
+                | _ => true end in
   ((if agree then 1 else 0) + (if wf then 2 else 0) + (if kids then 4 else 0) +
-   (match ires with GRes false _ => 8 | _ => 0 end) + (match ires with GPanic => 16 | _ => 0 end))%N.
+   (match ires with GRes false _ => 8 | _ => 0 end) + (match ires with GPanic => 16 | _ => 0 end) + (if housed then 32 else 0))%N.
